@@ -131,6 +131,49 @@ STREAMS = {
 }
 
 
+# -------------------------------------------------------------- template x all formats sweep
+SWEEP_BASE = {"i": 2, "j": 3, "k": 2, "l": 3}
+
+
+def sweep_task(task):
+    from ..runner import Stats
+
+    name, text, fmts_chunk, offset = task
+    stats = Stats()
+    # indexes that address the same dimension of a tensor used twice must have equal sizes
+    probe = kcheck.case_from_text(text, {}, SWEEP_BASE, {})
+    SWEEP_SIZES = dict(SWEEP_BASE)
+    for cls in gen.alias_classes(probe["expr"], probe["target"][1]):
+        for i in cls:
+            SWEEP_SIZES[i] = SWEEP_BASE[sorted(cls)[0]]
+    w = Worker()
+    ctx = {"worker": w}
+    try:
+        for q, fm in enumerate(fmts_chunk):
+            k = offset + q
+            first = None
+            for pat in (0, 1):
+                doks = {}
+                case0 = kcheck.case_from_text(text, fm, SWEEP_SIZES, {})
+                for n, t in enumerate(dict.fromkeys(x[1] for x in X.tensors(case0["expr"]))):
+                    acc = next(x for x in X.tensors(case0["expr"]) if x[1] == t)
+                    dims = tuple(SWEEP_SIZES[i] for i in acc[2])
+                    doks[t] = kcheck.pattern_dok(dims, pat + 2 * n, salt=k % 3)
+                case = kcheck.case_from_text(text, fm, SWEEP_SIZES, doks, capacity=(None, 1, 2)[k % 3])
+                fails, produced, exp, status = check_one(case, ctx, native=(pat == 0))
+                labels = set(gen.case_features(case)) | {f"template:{name}", "sweep",
+                                                         status if not status.startswith("ok") else "kernel_ok"}
+                nontrivial = bool(produced and exp is not None and exp.any_nonzero()
+                                  and labels & {"contraction", "compressed_level", "ordering_nonidentity", "reused_tensor",
+                                                "literal", "broadcast_term"})
+                stats.add(case, result(fails, labels, nontrivial, kcheck.case_id(case), kcheck.sample_of(case)))
+                if not produced:
+                    break
+    finally:
+        w.close()
+    return stats
+
+
 def still_fails(bucket):
     def pred(c):
         return any(f["bucket"] == bucket for f in check(c, None)["fails"])
@@ -163,6 +206,23 @@ def run(chk):
     stats = run_stream(__name__, "main", chk.tier, chk.seed, n)
     chk.absorb(stats, shrink=shrink_case)
     chk.absorb(run_stream(__name__, "literals", chk.tier, chk.seed, 160 if chk.tier == "quick" else 4000), shrink=shrink_case)
+    # bounded-exhaustive: templates x every format assignment (sampled above the tier limit)
+    from .. import templates
+    from ..runner import run_tasks
+
+    quick = chk.tier == "quick"
+    limit = 96 if quick else 4096
+    tasks, exhaustive, sampled = [], [], []
+    for name, text, in_quick in templates.TEMPLATES:
+        if quick and not in_quick:
+            continue
+        fmts, complete = templates.enumerate_formats(templates.tensor_orders(text), limit=limit, seed=chk.seed)
+        (exhaustive if complete else sampled).append(name)
+        for off in range(0, len(fmts), 16):
+            tasks.append((name, text, fmts[off : off + 16], off))
+    chk.absorb(run_tasks(sweep_task, tasks), shrink=shrink_case)
+    chk.coverage_extra["exhaustive_templates"] = exhaustive
+    chk.coverage_extra["sampled_templates"] = sampled
 
 
 def health(cov):
